@@ -33,6 +33,8 @@ type GMatch struct {
 	SelStyle int // 1 dotted/bracket, 2 json pointer
 	LitStyle int // 1 bare, 2 double quoted, 3 backtick
 	Contains bool
+	// ForceDouble: spell the literal in double quotes even if it is JSON-pointer shaped
+	ForceDouble bool
 }
 
 type GColl struct {
@@ -185,6 +187,13 @@ func (g *Gen) renderSelector(parts []string, style int) (text, wire string, ok b
 
 // renderValue renders a literal whose Raw must be `raw`; bare=true reports that the text ends in
 // a bare number (which must be followed by blank, ')' or EOF).
+func (g *Gen) renderValueM(m GMatch) (text string, bareNumber bool) {
+	if m.ForceDouble {
+		return quoteDouble(m.Raw), false
+	}
+	return g.renderValue(m.Raw, m.LitStyle)
+}
+
 func (g *Gen) renderValue(raw string, style int) (text string, bareNumber bool) {
 	if style == 0 {
 		style = 1 + g.r.Intn(3)
@@ -260,14 +269,14 @@ func (g *Gen) render(e GExpr, level int) (rendered, bool) {
 		var out rendered
 		switch n.Op {
 		case "eq", "ne":
-			v, bare := g.renderValue(n.Raw, n.LitStyle)
+			v, bare := g.renderValueM(n)
 			out = rendered{sel + g.sp() + opText[n.Op] + g.sp() + v, "", bare}
 		case "in", "notin":
 			neg := ""
 			if n.Op == "notin" {
 				neg = "not" + g.ws()
 			}
-			v, bare := g.renderValue(n.Raw, n.LitStyle)
+			v, bare := g.renderValueM(n)
 			if n.Contains {
 				out = rendered{sel + g.ws() + neg + "contains" + g.ws() + v, "", bare}
 			} else {
@@ -278,7 +287,7 @@ func (g *Gen) render(e GExpr, level int) (rendered, bool) {
 			if n.Op == "notmatches" {
 				neg = "not" + g.ws()
 			}
-			v, bare := g.renderValue(n.Raw, n.LitStyle)
+			v, bare := g.renderValueM(n)
 			out = rendered{sel + g.ws() + neg + "matches" + g.ws() + v, "", bare}
 		case "empty":
 			out = rendered{sel + g.ws() + "is" + g.ws() + "empty", "", false}
